@@ -243,3 +243,46 @@ Definition extract_fields (r : breq) (response : resp) (spare : list N) (cont : 
   | PWReg _ _ d0 d1 => extract_register_fields r (exact [d0; d1]) cont
   | _ => Err XUnsupported
   end.
+
+(* ---------- the same extraction, also returning the response's Data slice afterwards ----------
+   (property C13: the accessors work on the slice the response shares with its frame buffer; a
+   write through it would be visible here) *)
+Fixpoint extract_register_loop_data (fs : list field) (regs : registers) (cont had : bool)
+                                    (acc : list (field * fvalue)) : xres * slice :=
+  match fs with
+  | [] => (Ok (had, acc), r_data regs)
+  | f :: rest =>
+      let '(x, d) := extract_from f regs in
+      match x with
+      | Panic => (Panic, d)
+      | Err e => if negb cont then (Err e, d)
+                 else extract_register_loop_data rest (set_data regs d) cont true (acc ++ [(f, FErr)])
+      | Ok v => extract_register_loop_data rest (set_data regs d) cont had (acc ++ [(f, FVal v)])
+      end
+  end.
+Definition extract_register_fields_data (r : breq) (payload : slice) (cont : bool) : xres * slice :=
+  match new_registers payload (br_start r) with
+  | Ok regs => extract_register_loop_data (br_fields r) regs cont false []
+  | Err e => (Err (XRegisters e), payload)
+  | Panic => (Panic, payload)
+  end.
+(* ExtractFields; second component = the Data slice of the response afterwards (the FC6 echo hands
+   AsRegisters a slice of a copy of its two bytes: nothing can reach the response) *)
+Definition extract_fields_data (r : breq) (response : resp) (spare : list N) (cont : bool) : xres * slice :=
+  match response with
+  | PBytes fc _ _ data =>
+      if is_coil_fc fc then (extract_coil_fields r data cont, {| vis := data; spare := spare |})
+      else extract_register_fields_data r {| vis := data; spare := spare |} cont
+  | PWReg _ _ d0 d1 => (fst (extract_register_fields_data r (exact [d0; d1]) cont), exact [d0; d1])
+  | _ => (Err XUnsupported, {| vis := []; spare := spare |})
+  end.
+
+(* Field.ExtractFrom called for a list of fields on ONE shared *Registers *)
+Fixpoint extract_from_seq (fs : list field) (regs : registers) : list (field * res xerr aval) * registers :=
+  match fs with
+  | [] => ([], regs)
+  | f :: rest =>
+      let '(x, d) := extract_from f regs in
+      let '(xs, regs') := extract_from_seq rest (set_data regs d) in
+      ((f, x) :: xs, regs')
+  end.
